@@ -276,6 +276,45 @@ def check_constructors(chk, F):
     chk.floor(rid, "from_components_unchecked callers", len(callers), 2)
 
 
+# types whose value invariant is relied on by `unreachable!` / `expect` further down: built only inside the gate function
+FN_CONSTRUCT_RULES = [
+    ("descriptor::key::DefiniteDescriptorKey", ["descriptor::key::DefiniteDescriptorKey::new"],
+     "no wildcard, no multipath step, no hardened step to derive: derive_public_key's `unreachable!(\"impossible by "
+     "construction of DefiniteDescriptorKey\")` arms rely on it"),
+    ("descriptor::key::DerivPaths", ["descriptor::key::DerivPaths::new"],
+     "at least one path: `expect(\"not empty\")` / indexing of the first path rely on it"),
+]
+
+
+def check_fn_constructors(chk, F, rid):
+    chk.rule(rid, "values whose invariant a later `unreachable!` / `expect` relies on (DefiniteDescriptorKey: nothing left to "
+                  "choose and nothing hardened to derive; DerivPaths: non-empty) are built by struct literal only inside the "
+                  "constructor that checks the invariant (who-constructs rule over MIR aggregates)")
+    for adt, allowed_fns, why in FN_CONSTRUCT_RULES:
+        if adt not in F.adts:
+            chk.fail(rid, adt + "|missing", "type %s not found" % adt, kind="unanalysable")
+            continue
+        n = 0
+        for p, b in F.bodies.items():
+            mir = b.get("mir")
+            if mir is None or any(x in p for x in ("::tests::", "::test::")):
+                continue
+            if F.fns.get(p, {}).get("derived"):
+                continue
+            for blk in mir["blocks"]:
+                for s_ in blk["stmts"]:
+                    if s_["rv"] == "agg" and s_.get("adt") == adt:
+                        n += 1
+                        good = any(p == a or p.startswith(a + "::{closure") for a in allowed_fns)
+                        chk.obligation(rid, good, "%s|%s" % (adt.split("::")[-1], short(p)),
+                                       "%s is built by a struct literal in %s (%s), outside %s where its invariant is checked (%s)"
+                                       % (adt.split("::")[-1], short(p), s_["sp"], allowed_fns, why), s_["sp"])
+        chk.floor(rid, "literals of " + adt.split("::")[-1], n, 1)
+        for a in allowed_fns:
+            if a not in F.fns:
+                chk.fail(rid, "anchor|" + a, "gate function %s not found" % a, kind="unanalysable")
+
+
 def check_threshold_literals(chk, F, rid):
     THR = "primitives::threshold::Threshold"
     for p, b in F.bodies.items():
